@@ -371,7 +371,7 @@ int main(int argc, char** argv) {
         std::string a = argv[i]; auto nxt = [&]() { return std::string(i + 1 < argc ? argv[++i] : ""); };
         if (a == "--prop") prop = nxt(); else if (a == "--seed") root = strtoull(nxt().c_str(), 0, 10); else if (a == "--start") start = strtoull(nxt().c_str(), 0, 10);
         else if (a == "--count") count = strtoull(nxt().c_str(), 0, 10); else if (a == "--stride") stride = strtoull(nxt().c_str(), 0, 10); else if (a == "--replay") replay = nxt();
-        else if (a == "--dump-plan") dump = true; else if (a == "--replay-dir") g_replay_dir = nxt(); else if (a == "--no-replay-files") g_write_replays = false; else if (a == "--scratch") g_scratch_base = nxt(); else if (a == "--build-tag") g_build_tag = nxt();
+        else if (a == "--dump-plan") dump = true; else if (a == "--replay-dir") g_replay_dir = nxt(); else if (a == "--no-replay-files") g_write_replays = false; else if (a == "--scratch") g_scratch_base = nxt(); else if (a == "--build-tag") { g_build_tag = nxt(); g_nouio = g_build_tag == "nouio"; }
     }
     S = (Shared*)mmap(nullptr, sizeof(Shared), PROT_READ | PROT_WRITE, MAP_SHARED | MAP_ANONYMOUS, -1, 0);
     setvbuf(stdout, nullptr, _IOLBF, 0);
